@@ -13,6 +13,7 @@ func runC08(a *A) {
 	a.Rule("ordtab/contains", 1, a.ruleContains)
 	a.Rule("shape/slots-tile", 4, func() { a.tumblingSlotShapes("SlidingWindow", "size", "slide") })
 	a.Rule("shape/buffer-arrival-order", 4, func() { a.ruleBufferArrivalOrder(a.Named("window", "SlidingWindow")) })
+	a.Rule("shape/in-place-filter", 0, func() { a.ruleInPlaceFilter("window") }) // no instance today (positives: cep, C15)
 	a.Rule("shape/advance-by-one", 4, func() {
 		a.ruleAdvanceByOne(a.Named("window", "SlidingWindow"), map[string]string{
 			"(*window.SlidingWindow).Add":   "aligned slot of the first event",
